@@ -86,7 +86,12 @@ META = {
                 "point); the scan of a snapshot that already contains later updates stops at the cut-off; bounded retention is covered "
                 "(C07_replay_then_live_with_retention, C06_stored_order_with_retention). Tied to the code by schedule-steered runs of the instrumented Bolt transport "
                 "(restart, Last-Event-ID none / earliest / stored / unknown, publishes racing the registration) and of a LocalSubscriber, handler-level histories with "
-                "restarts and 1000+ update bursts, and replays larger than the buffer.",
+                "restarts and 1000+ update bursts, and replays larger than the buffer. Write transactions that fail (a refused key, a commit that cannot be "
+                "written) are outside that transition system; they are covered by a smaller model of persist() (Model/BoltPersist.v): for any sequence of "
+                "committing and failing transactions the cut-off read at registration separates exactly the keys present then from those stored later "
+                "(C07_cutoff_separates_history_from_live_with_failed_writes), the last event id is the last committed one, and the code before the repair "
+                "3127a7e is proved not to have the property; tied to the code by transport schedules that start with a refused publish and by the "
+                "failed-write stage of C09.",
         "design_ref": "DESIGN.md §5 C07", "note": HUB_NOTE + " Both transports and any retention size (C07_replay_then_live_with_retention: the replay covers the entries "
                 "retained when the scan read the history; a requested id that was already dropped is unknown).",
         "technique": "Coq proof (inductive invariant of the hub LTS over all schedules and crash points) + differential correspondence of schedule-steered transport / subscriber runs and handler-level histories evaluated in Coq",
